@@ -343,6 +343,38 @@ def _examples_owned(S):
     return z3.BoolVal(ex is None or (isinstance(ex, PyDictV) and ex.owned))
 
 
+def _dbinit_hooks():
+    h = db_hooks()
+    base = h['builtin_hook']
+
+    def builtin_hook(eng, st, name, args, kwargs, node):
+        if name == 'weakref.WeakValueDictionary':
+            o = OpaqueV('WeakValueDictionary')
+            st.ghost['memos_created'] = st.ghost.get('memos_created', ()) + (o,)
+            return [(st, o)]
+        return base(eng, st, name, args, kwargs, node)
+    h['builtin_hook'] = builtin_hook
+    return h
+
+
+def _dbinit_post(S, o):
+    """every database object gets its OWN memo of datasets (repeated requests are served from one
+    shared dataset *of this database*; two databases never share a memo)"""
+    me = S.st.heap[S.eng.self_oid]
+    made = S.st.ghost.get('memos_created', ())
+    return [('C19:each-database-has-its-own-dataset-memo',
+             z3.BoolVal(o.kind in ('normal', 'return') and len(made) == 1 and me.get('_dataset_weak_ref_dict') is made[0]))]
+
+
+class DatabaseInitC(ClassContract):
+    mod = 'database'
+    cls = 'Database'
+
+    def view(self, eng, st):
+        return None
+    methods = {'__init__': [Variant('construct', post=_dbinit_post, hooks=_dbinit_hooks(), props=('C19',))]}
+
+
 class DatabaseC(ClassContract):
     mod = 'database'
     cls = 'DictDatabase'
@@ -360,4 +392,4 @@ class DatabaseC(ClassContract):
     }
 
 
-CONTRACTS = [MergeC(), DatabaseC()]
+CONTRACTS = [MergeC(), DatabaseC(), DatabaseInitC()]
